@@ -32,6 +32,9 @@ type PlumbIn struct {
 	Steps  []string `json:"steps"`
 	Body   string   `json:"body,omitempty"`   // "" = one INSERT | sp = INSERT a; SavePoint; INSERT b; RollbackTo
 	Finish string   `json:"finish,omitempty"` // "" = rollback | commit   (how begin* steps end)
+	// Warm: the statement texts of the body (INSERT and the SELECT that reads it back) are first
+	// executed on the base handle, outside any transaction (in prepared mode: cached as pool-level entries)
+	Warm bool `json:"warm,omitempty"`
 }
 
 type PlumbRun struct {
@@ -40,6 +43,7 @@ type PlumbRun struct {
 	Survived int      `json:"survived"`
 	Errs     []string `json:"errs,omitempty"`
 	DBOk     bool     `json:"db_ok"` // DB() of the derived handle returned the pool's *sql.DB
+	Seen     int64    `json:"seen"`  // rows of its own INSERT the derived handle reads back right after it (-1: query failed)
 }
 
 type PlumbObs struct {
@@ -55,10 +59,11 @@ var errRollback = errors.New("verif: roll the block back")
 var errBegin = errors.New("verif: injected BEGIN failure")
 
 const insMark = "INSERT INTO marks (id) VALUES (?)"
+const selMark = "SELECT count(*) FROM marks WHERE id = ?"
 
 // exotic: forms outside the small Coq model (judged against the reference run only)
 func (in PlumbIn) exotic() bool {
-	if in.Body != "" || in.Finish != "" {
+	if in.Body != "" || in.Finish != "" || in.Warm {
 		return true
 	}
 	tx := false
@@ -81,7 +86,7 @@ func (in PlumbIn) exotic() bool {
 }
 
 func (in PlumbIn) reference() PlumbIn {
-	r := PlumbIn{Base: "plain", Body: in.Body, Finish: in.Finish}
+	r := PlumbIn{Base: "plain", Body: in.Body, Finish: in.Finish, Warm: in.Warm}
 	for _, s := range in.Steps {
 		if s == "sessprep" {
 			s = "sess"
@@ -161,6 +166,14 @@ func (e *env) runPlumbOnce(in PlumbIn, reuse *[]string) PlumbRun {
 				fail("ping", p.Ping())
 			}
 			insert(h, id)
+			// read your own write through the same handle (inside a transaction: before it ends)
+			o.Seen = -1
+			var seen int64
+			if err := h.Raw(selMark, id).Scan(&seen).Error; err == nil {
+				o.Seen = seen
+			} else {
+				fail("select", err)
+			}
 			if in.Body == "sp" {
 				fail("savepoint", h.SavePoint("sp1").Error)
 				insert(h, id+1)
@@ -247,6 +260,20 @@ func (e *env) runPlumbOnce(in PlumbIn, reuse *[]string) PlumbRun {
 			}))
 		}
 	}
+	if in.Warm {
+		wh := db
+		if in.Base != "prepared" {
+			for _, st := range in.Steps {
+				if st == "sessprep" {
+					wh = db.Session(&gorm.Session{PrepareStmt: true})
+					break
+				}
+			}
+		}
+		var n0 int64
+		fail("warm select", wh.Raw(selMark, id+5).Scan(&n0).Error)
+		fail("warm insert", wh.Exec(insMark, id+5).Error)
+	}
 	walk(db, in.Steps, false)
 	plain, err := gorm.Open(sqlite.Dialector{Conn: sqlDB}, &gorm.Config{Logger: logger.Discard})
 	lib.Must(err)
@@ -299,6 +326,9 @@ func (e *env) runPlumb(in PlumbIn) PlumbObs {
 	var o PlumbObs
 	o.PlumbRun = e.runPlumbGuarded(in, &o.ReuseErrs)
 	o.Ref = e.runPlumbGuarded(in.reference(), nil)
+	if o.Seen != o.Ref.Seen {
+		o.Errs = append(o.Errs, fmt.Sprintf("the derived handle reads its own INSERT back %d time(s), %d without the cache", o.Seen, o.Ref.Seen))
+	}
 	if o.Ref.DBOk && !o.DBOk {
 		o.Errs = append(o.Errs, "DB(): the handle knows its *sql.DB without the cache but not with it")
 	}
